@@ -134,6 +134,17 @@ def inheritance_family():
                             L.append('goal o = new Outer();')
                         L.append('horizon >= 20.0;')
                         out.append(('fi_%s_%s_%s_%s_%s' % (base.lower(), chain, mode, via, host), ['\n'.join(L) + '\n'], True))
+                        if mode == 'fact':
+                            # a fact whose time is given with its arguments: only the temporal rule of Interval / Impulse ties
+                            # its end to its start and keeps it within the horizon (the rule of a fact's own predicate is
+                            # not applied)
+                            pinned = new.replace('d:3.0', 'd:3.0, start:10.0' if base == 'Interval' else 'd:3.0, at:25.0')
+                            L2 = [x.replace(new, pinned) for x in L[:-1]]
+                            if base == 'Interval':
+                                L2.append('horizon >= 20.0;')
+                            else:
+                                L2.append('horizon <= 20.0;')      # the impulse lies beyond the horizon: no solution
+                            out.append(('fi_%s_%s_pinned_%s_%s' % (base.lower(), chain, via, host), ['\n'.join(L2) + '\n'], base == 'Interval'))
     return out
 
 
